@@ -509,4 +509,449 @@ Proof.
   destruct (bid_is_zero _); [exact Ks|]. destruct (negb _); [exact Ks|]. now apply finalize_commit_K.
 Qed.
 
+(* ---------------------------------------------------------------- composite transitions *)
+
+Lemma K_irrel s s0 :
+  K s -> height s0 = height s -> round s <= round s0 -> log s0 = log s -> rounds s0 = rounds s ->
+  locked s0 = locked s -> locked_round s0 = locked_round s -> K s0.
+Proof.
+  intros Ks A1 A2 A4 Er El Elr. apply (K_quiet s s0 []); auto using qnil. rewrite Er. apply rounds_ext_refl.
+Qed.
+
+Lemma rounds_ext_trans a b c : rounds_ext a b -> rounds_ext b c -> rounds_ext a c.
+Proof.
+  intros H1 H2 r rv G. destruct (H2 r rv G) as [G'|E]; [|now right]. now apply H1.
+Qed.
+Lemma add_round_ext r s : rounds_ext (rounds s) (rounds (add_round r s)).
+Proof.
+  unfold add_round. destruct (get_rv (rounds s) r) eqn:E; [apply rounds_ext_refl|].
+  cbn. intros r' rv G. rewrite get_rv_app in G. destruct (get_rv (rounds s) r'); [now left|].
+  destruct (r =? r'); [injection G as <-; now right|discriminate].
+Qed.
+Lemma add_rounds_from_ext n : forall lo s, rounds_ext (rounds s) (rounds (add_rounds_from lo n s)).
+Proof.
+  induction n as [|n IH]; intros lo s; cbn; [apply rounds_ext_refl|].
+  eapply rounds_ext_trans; [apply (add_round_ext lo)|apply IH].
+Qed.
+(** add_round / add_rounds_from touch nothing but [rounds] *)
+Definition same_but_rounds (s s0 : nstate) : Prop :=
+  core_eq s s0 /\ locked s0 = locked s /\ locked_round s0 = locked_round s.
+Lemma add_round_sbr r s : same_but_rounds s (add_round r s).
+Proof. unfold add_round. destruct (get_rv _ _); repeat split. Qed.
+Lemma add_rounds_from_sbr n : forall lo s, same_but_rounds s (add_rounds_from lo n s).
+Proof.
+  induction n as [|n IH]; intros lo s; cbn; [repeat split|].
+  destruct (add_round_sbr lo s) as (C1 & L1 & R1). destruct (IH (lo + 1) (add_round lo s)) as (C2 & L2 & R2).
+  split; [eapply core_eq_trans; eauto|]. split; congruence.
+Qed.
+
+Lemma K_rounds_ext s s0 :
+  K s -> same_but_rounds s s0 -> rounds_ext (rounds s) (rounds s0) -> K s0.
+Proof.
+  intros Ks ((A1 & A2 & A3 & A4 & A5) & L & R) Ext.
+  apply (K_quiet s s0 []); auto using qnil. lia.
+Qed.
+
+Lemma hvs_set_round_K nr s : K s -> K (hvs_set_round nr s).
+Proof.
+  intros Ks. unfold hvs_set_round. destruct (_ && _); [now apply K_panic|].
+  set (x := add_rounds_from _ _ s).
+  assert (Kx : K x).
+  { apply (K_rounds_ext s); auto; [apply add_rounds_from_sbr|apply add_rounds_from_ext]. }
+  apply (K_irrel x); auto. cbn. lia.
+Qed.
+
+Lemma decide_proposal_K m h r s : K s -> K (decide_proposal mkblock cfg m h r s).
+Proof.
+  intros Ks. destruct (decide_proposal_shape mkblock cfg m h r s) as [->|(p & _ & _ & ->)]; [exact Ks|].
+  apply (K_quiet s _ [EvOut (SignProposal p)]); auto using rounds_ext_refl; cbn; try lia. apply qone. exact I.
+Qed.
+
+Lemma enter_propose_K h r s : K s -> K (enter_propose valid proposer mkblock cfg me h r s).
+Proof.
+  intros Ks. unfold enter_propose.
+  destruct (negb (height s =? h) || (r <? round s) || _) eqn:G; [exact Ks|].
+  apply orb_false_iff in G. destruct G as (G & _). b2p.
+  set (s1 := sched h r SPropose s). assert (K1 : K s1) by now apply K_sched.
+  destruct (sched_keeps h r SPropose s) as (A & B). fold s1 in A, B.
+  set (s2 := match me with Some i => _ | None => s1 end).
+  assert (K2 : K s2 /\ round s2 = round s1).
+  { subst s2. destruct me; [|auto]. destruct (_ =? _); [|auto]. split; [now apply decide_proposal_K|].
+    destruct (decide_proposal_shape mkblock cfg (Some n) h r s1) as [->|(p & _ & _ & ->)]; reflexivity. }
+  destruct K2 as (K2 & R2).
+  assert (K3 : K (set_rstep SPropose (set_round r s2))).
+  { apply (K_irrel s2); auto. cbn. lia. }
+  destruct (is_proposal_complete _); [now apply enter_prevote_K|exact K3].
+Qed.
+
+Lemma enter_new_round_K h r s : K s -> K (enter_new_round valid proposer mkblock cfg me h r s).
+Proof.
+  intros Ks. unfold enter_new_round.
+  destruct (negb (height s =? h) || (r <? round s) || _) eqn:G; [exact Ks|].
+  apply orb_false_iff in G. destruct G as (G & _). b2p.
+  match goal with |- K ((_ ;; ?g) ?s3) => set (Gf := g); set (S3 := s3) end.
+  assert (K3 : K S3).
+  { subst S3. apply (K_irrel s); auto.
+    all: destruct (round s <? r); destruct (r =? 1); cbn; auto; lia. }
+  unfold andthen. pose proof (hvs_set_round_K (r + 1) S3 K3) as K4.
+  destruct (halted _); [exact K4|]. subst Gf. cbn beta.
+  set (x := hvs_set_round (r + 1) S3) in *.
+  assert (K5 : K (set_tt_precommit false x)) by (apply (K_irrel x); auto; cbn; lia).
+  destruct (_ && _).
+  - destruct (empty_interval_pos cfg); [now apply K_sched|exact K5].
+  - now apply enter_propose_K.
+Qed.
+
+Definition NI (s : nstate) : Prop := Inv1 s /\ I6 s /\ K s.
+
+Lemma ni_enter_prevote h r s :
+  NI s -> Pre h r s -> NI (enter_prevote valid me h r s) /\ keeps s (enter_prevote valid me h r s).
+Proof.
+  intros (I & J & Ks) P. destruct (enter_prevote_inv valid me h r s I P) as (I' & Kp).
+  split; [|exact Kp]. split; [exact I'|]. split; [now apply enter_prevote_J|now apply enter_prevote_K].
+Qed.
+Lemma ni_enter_precommit h r s :
+  NI s -> Pre h r s -> NI (enter_precommit valid me h r s) /\ keeps s (enter_precommit valid me h r s).
+Proof.
+  intros (I & J & Ks) P. destruct (enter_precommit_inv valid me h r s I P) as (I' & Kp).
+  split; [|exact Kp]. split; [exact I'|]. split; [now apply enter_precommit_J|now apply enter_precommit_K].
+Qed.
+Lemma ni_enter_prevote_wait h r s :
+  NI s -> Pre h r s -> NI (enter_prevote_wait vals h r s).
+Proof.
+  intros (I & J & Ks) P. destruct (enter_prevote_wait_inv vals h r s I P) as (I' & Kp).
+  split; [exact I'|]. split; [now apply enter_prevote_wait_J|now apply enter_prevote_wait_K].
+Qed.
+Lemma ni_enter_precommit_wait h r s : NI s -> NI (enter_precommit_wait vals h r s).
+Proof.
+  intros (I & J & Ks). destruct (enter_precommit_wait_inv vals h r s I) as (I' & Kp).
+  split; [exact I'|]. split; [now apply enter_precommit_wait_J|now apply enter_precommit_wait_K].
+Qed.
+Lemma ni_enter_new_round h r s :
+  NI s -> let s' := enter_new_round valid proposer mkblock cfg me h r s in
+          NI s' /\ height s' = height s /\ Pre h r s'.
+Proof.
+  intros (I & J & Ks). cbv zeta. destruct (enter_new_round_inv valid proposer mkblock cfg me h r s I) as (I' & Hh & P).
+  split; [|auto]. split; [exact I'|]. split; [now apply enter_new_round_J|now apply enter_new_round_K].
+Qed.
+Lemma ni_try_finalize h s : NI s -> NI (try_finalize_commit valid h s).
+Proof.
+  intros (I & J & Ks). split; [now apply try_finalize_commit_inv|].
+  split; [now apply try_finalize_commit_J|now apply try_finalize_commit_K].
+Qed.
+
+Lemma ni_enter_commit h cr s : NI s -> NI (enter_commit valid h cr s).
+Proof.
+  intros (I & J & Ks). split; [now apply enter_commit_inv|]. split; [now apply enter_commit_J|].
+  unfold enter_commit.
+  destruct (negb (height s =? h) || step_le SCommit (rstep s)) eqn:G; [exact Ks|]. b2p.
+  destruct (maj_of _) as [b|]; [|now apply K_panic].
+  match goal with |- K (try_finalize_commit valid h ?X) => set (x := X) end.
+  assert (C : height x = height s /\ round x = round s /\ log x = log s /\ timeouts x = timeouts s /\
+              rounds x = rounds s /\ locked x = locked s /\ locked_round x = locked_round s).
+  { subst x. destruct (hashes_to (locked s) _); destruct (_ && _); repeat split. }
+  destruct C as (A1 & A2 & A4 & A5 & Er & El & Elr).
+  apply try_finalize_commit_K.
+  - apply (Inv1_move s); auto.
+    + unfold adv. right. right. rewrite A1, A2. repeat split; auto. subst x. cbn in *. lia.
+    + now rewrite A4.
+    + now rewrite A4.
+    + now apply tk_ok_same.
+  - apply (K_irrel s); auto. lia.
+Qed.
+
+Lemma ni_nr_pc h r s :
+  NI s -> NI ((enter_new_round valid proposer mkblock cfg me h r ;; enter_precommit valid me h r) s).
+Proof.
+  intros N0. unfold andthen. destruct (ni_enter_new_round h r s N0) as (N1 & H1 & P1). cbv zeta in *.
+  destruct (halted _); [exact N1|]. now apply ni_enter_precommit.
+Qed.
+
+Lemma andthen_NI (f g : nstate -> nstate) s :
+  NI (f s) -> (forall x, NI x -> NI (g x)) -> NI ((f ;; g) s).
+Proof. intros N0 H. unfold andthen. destruct (halted (f s)); auto. Qed.
+
+Lemma NI_irrel s s0 :
+  NI s -> core_eq s s0 -> rounds s0 = rounds s -> locked s0 = locked s -> locked_round s0 = locked_round s ->
+  (pblock s0 = pblock s \/ pblock s0 = None \/ pblock s0 = locked s) -> NI s0.
+Proof.
+  intros (I & J & Ks) C Er El Elr Pb. split; [eapply Inv1_core; eauto|]. split.
+  - destruct C as (A1 & A2 & A3 & A4 & A5). apply (Inv6_quiet valid s s0 []); auto using ProofsValid.quiet_nil.
+  - now apply (K_core s).
+Qed.
+
+Lemma ni_recv_proposal p s : NI s -> NI (recv_proposal proposer p s).
+Proof.
+  intros N0. pose proof (recv_proposal_core proposer p s) as C.
+  destruct (recv_proposal_v proposer p s) as (V1 & V2 & V3 & V4).
+  apply (NI_irrel s); auto.
+  - unfold recv_proposal. destruct (prop s); auto. destruct (_ || _); auto. destruct (_ && _); auto.
+    destruct (p_signer p); auto. destruct (negb _); auto. cbn. destruct (pparts s); reflexivity.
+  - unfold recv_proposal. destruct (prop s); auto. destruct (_ || _); auto. destruct (_ && _); auto.
+    destruct (p_signer p); auto. destruct (negb _); auto. cbn. destruct (pparts s); reflexivity.
+Qed.
+
+Lemma ni_add_block h r b s :
+  NI s -> In (InBlock h r b) (received (log s)) -> NI (add_block valid me h r b s).
+Proof.
+  intros (I & J & Ks) Hin. split; [now apply add_block_inv|]. split; [now apply add_block_J|].
+  unfold add_block.
+  destruct (negb (height s =? h)) eqn:G; [exact Ks|]. b2p.
+  destruct (pparts s) as [ps|]; [|exact Ks].
+  destruct (negb (ps_hdr ps =? b_parts b)); [exact Ks|].
+  destruct (ps_complete s ps); [exact Ks|].
+  set (s1 := set_pblock _ _).
+  set (s2 := match maj_of (get_vs s1 (round s1) Prevote) with Some x => _ | None => s1 end).
+  assert (C2 : core_eq s s2 /\ rounds s2 = rounds s /\ locked s2 = locked s /\ locked_round s2 = locked_round s).
+  { subst s2. destruct (maj_of _); [|repeat split]. destruct (_ && _); repeat split. }
+  destruct C2 as (C2 & Er & El & Elr).
+  assert (I2 : Inv1 s2) by (eapply Inv1_core; eauto).
+  assert (K2 : K s2) by now apply (K_core s).
+  assert (J2 : I6 s2).
+  { assert (J1 : I6 s1).
+    { subst s1. eapply Inv6_frame with (s := s) (evs := []); cbn; auto.
+      - intros v [].
+      - intros x Hx. injection Hx as <-. right. right. exists h, r. exact Hin. }
+    eapply Inv6_eq; [|exact J1]. subst s2. destruct (maj_of _); [|repeat split]. destruct (_ && _); repeat split. }
+  clearbody s2.
+  destruct (_ && _).
+  - unfold andthen.
+    pose proof (ni_enter_prevote h (round s2) s2 (conj I2 (conj J2 K2)) (fun _ => N.le_refl _)) as N3.
+    destruct N3 as ((I3 & J3 & K3) & Kp3).
+    destruct (halted (enter_prevote valid me h (round s2) s2)); [exact K3|].
+    match goal with |- K (if ?c then _ else _) => destruct c end; [|exact K3].
+    apply enter_precommit_K; auto. intros _. lia.
+  - destruct (step_eqb _ _); [now apply try_finalize_commit_K|exact K2].
+Qed.
+
+Lemma voted_for_in ins peer v :
+  In (InVote peer v) ins -> v_ok v = true ->
+  voted_for ins (v_type v) (v_height v) (v_round v) (v_bid v) (v_idx v) = true.
+Proof.
+  intros Hin Ok. unfold voted_for. apply existsb_exists. exists (InVote peer v). split; [exact Hin|].
+  rewrite Ok, !N.eqb_refl. unfold bid_eqb. rewrite !N.eqb_refl. destruct (v_type v); reflexivity.
+Qed.
+
+Lemma hvs_add_K peer v s :
+  K s -> In (InVote peer v) (received (log s)) -> v_height v = height s ->
+  K (fst (hvs_add vals peer v s)).
+Proof.
+  intros Ks Hin Vh. unfold hvs_add.
+  assert (Hgo : forall s', K s' -> log s' = log s -> height s' = height s -> K (fst (
+    match get_rv (rounds s') (v_round v) with
+    | None => (s', false)
+    | Some rv =>
+      if negb (v_ok v) then (s', false)
+      else let '(vs', added) := vs_add (pw vals s') (pick (v_type v) rv) (v_idx v) (v_bid v) in
+           if added then (set_rounds (put_rv (rounds s') (v_round v) (upd (v_type v) rv vs')) s', true)
+           else (s', false)
+    end))).
+  { intros s' Ks' El Eh. destruct (get_rv (rounds s') (v_round v)) as [rv|] eqn:G; [|exact Ks'].
+    destruct (negb (v_ok v)) eqn:Ok; [exact Ks'|]. apply negb_false_iff in Ok.
+    destruct (vs_add _ _ _ _) as [vs' added] eqn:Ea. destruct added; [|exact Ks'].
+    cbn [fst]. pose proof Ks' as [K1 K2 K3 K4]. split.
+    - intros r' rv' G'. cbn [rounds set_rounds log height] in *.
+      destruct (N.eq_dec (v_round v) r') as [E|E].
+      + subst r'. rewrite (get_put_rv_same _ _ _ _ G) in G'. injection G' as <-.
+        destruct (K1 _ _ G) as (A & B).
+        assert (V : voted_for (received (log s')) (v_type v) (height s') (v_round v) (v_bid v) (v_idx v) = true).
+        { rewrite El, Eh, <- Vh. now apply (voted_for_in _ peer). }
+        unfold pw in Ea.
+        destruct (v_type v); cbn [pick upd fst snd] in *; split; auto; eapply vs_ok_add; eauto.
+      + rewrite get_put_rv_other in G'; auto.
+    - apply (LH_step s' _ []); auto; cbn; try lia.
+      all: try (intros p _ _ _ (lb & A & B & C); left; exists lb; auto; fail).
+      all: try (intros x []).
+    - exact K3.
+    - exact K4. }
+  destruct (get_rv (rounds s) (v_round v)) eqn:E.
+  - specialize (Hgo s Ks eq_refl eq_refl). rewrite E in Hgo. exact Hgo.
+  - destruct (_ <? _)%nat; [|exact Ks].
+    match goal with |- K (fst (match get_rv (rounds ?x) _ with _ => _ end)) => apply (Hgo x) end; try reflexivity.
+    + apply (K_rounds_ext s); auto.
+      * destruct (add_round_sbr (v_round v) s) as ((A1 & A2 & A3 & A4 & A5) & L & R). repeat split; cbn; auto.
+      * cbn. apply add_round_ext.
+    + cbn. apply (add_round_sbr (v_round v) s).
+    + cbn. apply (add_round_sbr (v_round v) s).
+Qed.
+
+Lemma ni_add_vote peer v s :
+  NI s -> In (InVote peer v) (received (log s)) ->
+  NI (add_vote valid vals proposer mkblock cfg me peer v s).
+Proof.
+  intros N0 Hin. pose proof N0 as (I & J & Ks). unfold add_vote.
+  destruct (_ && vtype_eqb _ _).
+  { destruct (negb _); [exact N0|]. destruct (last_commit s) as [[[lh lr] vs]|]; [|exact N0].
+    destruct (_ || _); [exact N0|]. destruct (vs_add _ _ _ _) as [vs' added].
+    destruct (negb added); [exact N0|].
+    assert (N1 : NI (set_last_commit (Some (lh, lr, vs')) s)) by (apply (NI_irrel s); auto; repeat split).
+    destruct (_ && _); [|exact N1]. now apply ni_enter_new_round. }
+  destruct (negb (v_height v =? height s)) eqn:Vh; [exact N0|]. b2p.
+  pose proof (hvs_add_core vals peer v s) as C1. pose proof (hvs_add_v vals peer v s) as V1.
+  pose proof (hvs_add_K peer v s Ks Hin Vh) as K1.
+  destruct (hvs_add vals peer v s) as [s1 added]. cbn [fst] in *.
+  assert (N1 : NI s1).
+  { split; [eapply Inv1_core; eauto|]. split; [eapply Inv6_eq; eauto|exact K1]. }
+  destruct (negb added); [exact N1|].
+  destruct (step_eqb (rstep s1) SCommit); [exact N1|].
+  assert (Hh1 : height s1 = height s) by apply C1.
+  destruct (v_type v).
+  - (* prevote *)
+    set (s2 := match maj_of (get_vs s1 (v_round v) Prevote) with Some b => _ | None => s1 end).
+    assert (N2 : NI s2 /\ height s2 = height s1).
+    { subst s2. destruct (maj_of (get_vs s1 (v_round v) Prevote)) as [b|] eqn:M; [|auto].
+      set (sa := match locked s1 with Some _ => _ | None => s1 end).
+      assert (Na : NI sa /\ height sa = height s1).
+      { subst sa. destruct (locked s1) as [lb|] eqn:El; [|auto].
+        destruct ((locked_round s1 <? v_round v) && (v_round v <=? round s1) && negb (hashes_to (Some lb) (bh b))) eqn:U; [|auto].
+        split; [|reflexivity]. b2p. destruct N1 as (I1 & J1 & Kk1). split; [|split].
+        - eapply Inv1_core; [|exact I1]. repeat split.
+        - apply (Inv6_quiet valid s1 _ []); auto using ProofsValid.quiet_nil.
+        - apply (K_release s1 (unlock s1) (v_round v) b); auto; try (repeat split; fail).
+          + eapply maj_polka; eauto. apply Kk1.
+          + intros lb' El'. eapply not_hashes_to; eauto; [apply Kk1|]. rewrite El. assumption.
+          + intros p _ _ _ (lb' & L1 & L2 & L3). lia. }
+      destruct Na as (Na & Ha). clearbody sa.
+      destruct (negb (bh b =? 0) && (valid_round sa <? v_round v) && (v_round v =? round sa)); [|auto].
+      split.
+      + apply (NI_irrel sa); auto.
+        all: destruct (hashes_to (pblock sa) (bh b)); destruct (negb _); cbn; auto; repeat split.
+      + destruct (hashes_to (pblock sa) (bh b)); destruct (negb _); cbn; auto. }
+    destruct N2 as (N2 & H2). clearbody s2.
+    destruct ((round s2 <? v_round v) && _); [now apply ni_enter_new_round|].
+    destruct ((round s2 =? v_round v) && _) eqn:B2.
+    { b2p. assert (P : Pre (height s) (v_round v) s2) by (intros _; lia).
+      destruct (maj_of _).
+      - destruct (_ || _); [now apply ni_enter_precommit|].
+        destruct (any_of _ _); [now apply ni_enter_prevote_wait|exact N2].
+      - destruct (any_of _ _); [now apply ni_enter_prevote_wait|exact N2]. }
+    destruct (prop s2) as [p|]; [|exact N2]. destruct ((1 <=? p_pol p) && _); [|exact N2].
+    destruct (is_proposal_complete s2); [|exact N2]. apply ni_enter_prevote; auto. intros _. lia.
+  - (* precommit *)
+    destruct (maj_of _) as [b|].
+    + apply andthen_NI; [now apply ni_nr_pc|]. intros x Nx.
+      destruct (negb _).
+      * apply andthen_NI; [now apply ni_enter_commit|]. intros y Ny.
+        destruct (skip_timeout_commit cfg && _); [now apply ni_enter_new_round|exact Ny].
+      * now apply ni_enter_precommit_wait.
+    + destruct (_ && _); [|exact N1].
+      apply andthen_NI; [now apply ni_enter_new_round|]. intros x Nx. now apply ni_enter_precommit_wait.
+Qed.
+
+Lemma ni_enter_propose h r s :
+  NI s -> Pre h r s -> NI (enter_propose valid proposer mkblock cfg me h r s).
+Proof.
+  intros (I & J & Ks) P. destruct (enter_propose_inv valid proposer mkblock cfg me h r s I P) as (I' & _).
+  split; [exact I'|]. split; [now apply enter_propose_J|now apply enter_propose_K].
+Qed.
+
+Lemma ni_handle_timeout h r st s :
+  NI s -> past s h r -> NI (handle_timeout valid proposer mkblock cfg me h r st s).
+Proof.
+  intros N0 Pa. pose proof N0 as (I & J & Ks). unfold handle_timeout.
+  destruct (negb (h =? height s) || (r <? round s) || _) eqn:G; [exact N0|].
+  apply orb_false_iff in G. destruct G as (G & _). b2p.
+  assert (P : Pre h r s). { intros _. unfold past in Pa. lia. }
+  destruct st; try (split; [now apply Inv1_panic|split; [now apply ProofsValid.Inv6_panic|now apply K_panic]]).
+  - now apply ni_enter_new_round.
+  - apply ni_enter_propose; auto. intros _. apply (i_round _ I).
+  - now apply ni_enter_prevote.
+  - now apply ni_enter_precommit.
+  - apply andthen_NI; [now apply ni_enter_precommit|]. intros x Nx. now apply ni_enter_new_round.
+Qed.
+
+Lemma ni_step_state s i : NI s -> NI (step_state valid vals proposer mkblock cfg me s i).
+Proof.
+  intros N0. pose proof N0 as (I & J & Ks). unfold step_state. destruct (halted s); [exact N0|].
+  set (s0 := set_log (EvIn i :: log s) s).
+  assert (Ns : NI s0).
+  { subst s0. split; [|split].
+    - apply (Inv1_move s); auto; try reflexivity. + unfold adv. cbn. lia. + now apply tk_ok_same.
+    - apply (Inv6_quiet valid s _ [EvIn i]); auto. apply ProofsValid.quiet_in.
+    - apply (K_quiet s _ [EvIn i]); auto using qin, rounds_ext_refl. cbn. lia. }
+  assert (Hi : In i (received (log s0))) by (cbn; now left).
+  pose proof Ns as (I0 & J0 & K0).
+  destruct i; cbn [handle].
+  - destruct (prop_wf p); [now apply ni_recv_proposal|exact Ns].
+  - now apply ni_add_block.
+  - destruct (negb _); [exact Ns|]. destruct (pparts s0); [|exact Ns].
+    split; [now apply Inv1_panic|split; [now apply ProofsValid.Inv6_panic|now apply K_panic]].
+  - destruct (bid_wf _); [now apply ni_add_vote|exact Ns].
+  - destruct (existsb _ _) eqn:E; [|exact Ns].
+    apply existsb_exists in E. destruct E as (ti & Hin & Eq). apply tinfo_eqb_eq in Eq. subst ti.
+    apply ni_handle_timeout.
+    + split; [|split].
+      * apply (Inv1_move s0); auto; try reflexivity.
+        -- unfold adv. cbn. lia.
+        -- intros h' r' st' H. left. cbn in H. eapply in_remove_one; eauto.
+      * eapply Inv6_eq; [|exact J0]. repeat split.
+      * apply (K_irrel s0); auto. cbn. lia.
+    + unfold past. cbn. apply (i_tk _ I0 _ _ _ Hin).
+Qed.
+
+Lemma ni_init : NI (init cfg).
+Proof.
+  split; [apply init_inv|]. split; [apply init_J|].
+  unfold init. apply K_sched. split.
+  - intros r rv G. apply get_rv_single in G. subst rv. split; apply vs_ok_empty.
+  - intros p [].
+  - intros lb E. discriminate.
+  - intros post o pre E. destruct post; discriminate.
+Qed.
+
+Lemma ni_run ins : NI (run valid vals proposer mkblock cfg me ins).
+Proof.
+  unfold run. generalize ni_init. generalize (init cfg).
+  induction ins as [|i ins IH]; intros s N0; cbn; [exact N0|]. apply IH. now apply ni_step_state.
+Qed.
+
+(* ---------------------------------------------------------------- the theorems *)
+
+Local Notation flog := (final_log valid vals proposer mkblock cfg me).
+
+Lemma run_hist ins : histK (flog ins).
+Proof. destruct (ni_run ins) as (_ & _ & Kr). apply Kr. Qed.
+
+Lemma signed_precommit_nonzero ins post v pre :
+  flog ins = post ++ EvOut (SignVote v) :: pre -> v_type v = Precommit ->
+  bid_is_zero (v_bid v) = false -> bh (v_bid v) <> 0.
+Proof.
+  intros E Ty Nz Hz. pose proof (run_hist ins post _ pre E) as P. cbn in P. rewrite Ty in P.
+  destruct P as (P1 & _). rewrite (P1 Hz) in Nz. discriminate.
+Qed.
+
+Theorem precommit_needs_polka : C03_precommit_needs_polka_statement valid vals proposer mkblock cfg me.
+Proof.
+  intros ins post pre v E Ty Nz.
+  pose proof (signed_precommit_nonzero ins post v pre E Ty Nz) as Hnz.
+  pose proof (run_hist ins post _ pre E) as P. cbn in P. rewrite Ty in P. destruct P as (_ & P2).
+  exact (P2 Hnz).
+Qed.
+
+Theorem commit_needs_quorum : C03_commit_needs_quorum_statement valid vals proposer mkblock cfg me.
+Proof.
+  intros ins post pre h b r E. exact (run_hist ins post _ pre E).
+Qed.
+
+(** the lock rule, for any later prevote (nil included) whose hash differs from the precommitted one *)
+Theorem lock_rule_strong ins l3 l2 l1 p x :
+  flog ins = l3 ++ EvOut (SignVote x) :: l2 ++ EvOut (SignVote p) :: l1 ->
+  v_type p = Precommit -> bid_is_zero (v_bid p) = false -> v_type x = Prevote ->
+  v_height x = v_height p -> v_round p < v_round x -> bh (v_bid x) <> bh (v_bid p) ->
+  exists r'' y, v_round p < r'' /\ r'' <= v_round x /\ bh y <> bh (v_bid p) /\
+                quorum_received vals (received (l2 ++ EvOut (SignVote p) :: l1)) Prevote (v_height p) r'' y.
+Proof.
+  intros E Tp Nz Tx Hh Hr Hne.
+  assert (Hnz : bh (v_bid p) <> 0).
+  { apply (signed_precommit_nonzero ins (l3 ++ EvOut (SignVote x) :: l2) p l1); auto.
+    rewrite E, <- app_assoc. reflexivity. }
+  pose proof (run_hist ins l3 _ _ E) as P. cbn in P. rewrite Tx in P.
+  apply (P p); auto. apply in_signed_votes. apply in_or_app. right. now left.
+Qed.
+
+Theorem lock_rule : C03_lock_rule_statement valid vals proposer mkblock cfg me.
+Proof.
+  intros ins l3 l2 l1 p x E Tp Nz Tx _ Hh Hr Hne. eapply lock_rule_strong; eauto.
+Qed.
+
 End Lock.
